@@ -1,6 +1,6 @@
 """C01 — a server connection serves one client at a time, for a whole transaction."""
 from mirlib import *
-from common import cancelled_io_findings
+from common import cancelled_io_findings, release_gate
 
 H = "pgcat::client::Client::handle::{closure#0}"
 ROUND_TRIPS = ("pgcat::client::Client::send_and_receive_loop", "pgcat::client::Client::receive_server_message")
@@ -172,3 +172,19 @@ def run(ctx):
                          "the connection would be released with the failed transaction open and the next client's statements run inside it" % (nm, "does not set in_transaction" if not got else "sets in_transaction to %s" % sorted(got)))
             other = sorted({n_ for n_, b_ in F.bodies.items() if not n_.startswith("bin:") and n_ != rv.name and not n_.endswith("Server::startup::{closure#0}") and any(proj_fields(st["lhs"])[-1:] == ["in_transaction"] for blk, i, st in b_.assigns())})
             r8.check(not other, "flag-writers", "in_transaction is written only by Server::recv", "in_transaction is also written by %s" % other)
+
+    # ---------------- R9 a connection abandoned between claim and check-in is not handed on
+    r9 = ctx.rule("C01-R9", "a connection that a client claimed and left without a completed checkin_cleanup (any `?` exit of handle between checkout and check-in, a panic, a dropped future) is discarded by the pool: "
+                  "Server::is_bad / ServerPool::has_broken answer true on every path while the field set by Server::claim is set (the conditions for clearing it are C02-R1's)", floor=2)
+    gate, why = release_gate(F)
+    r9.check(gate is not None, "abandoned=>discarded", "is_bad() is true on every path while Server.%s (set by claim) is set" % gate,
+             "%s: a client that leaves handle through an error exit while its transaction is open (Bind of an unknown statement, a failed write to the client) returns the connection to the pool as it is, and the next client's statements run inside that transaction" % why)
+    exits = 0
+    if h:
+        claims = h.calls("pgcat::server::Server::claim")
+        rets = [c.block for c in h.calls("re:FromResidual<.*>>::from_residual$")]
+        cl = h.calls(CLEANUP)
+        if claims and cl:
+            after = h.reach([claims[0].target])
+            exits = len([b for b in rets if b in after])
+    r9.check(exits > 0, "relies-on-gate", "%d `?` exits of handle lie between Server::claim and checkin_cleanup and rely on the gate" % exits, "no claim / `?` exits found in handle")
